@@ -819,6 +819,9 @@ func ToActivity(it Item) (*Activity, error) {
 	case Activity:
 		return &i, nil
 	default:
+		if it == nil {
+			return nil, ErrorInvalidType[Activity](it)
+		}
 		// NOTE(marius): this is an ugly way of dealing with the interface conversion error: types from different scopes
 		typ := reflect.TypeOf(new(Activity))
 		if reflect.TypeOf(it).ConvertibleTo(typ) {
